@@ -21,6 +21,7 @@ mod breaker;
 mod trend;
 mod contexts;
 mod pathfs;
+mod inject;
 
 fn main() {
     let args: Vec<String> = std::env::args().collect();
@@ -59,6 +60,7 @@ fn main() {
         "ctx-replay" => contexts::replay(rest),
         "ctx-load" => contexts::load(rest),
         "pathfs-replay" => pathfs::replay(rest),
+        "inject-replay" => inject::replay(rest),
         "for-expand" => misc::for_expand(rest),
         "event-file" => misc::event_file(rest),
         other => {
